@@ -245,6 +245,69 @@ pub struct KnownFinding {
     pub repro: Option<String>,
 }
 
+/// Signatures of the recorded (status "known") findings of a property; for fuzz targets.
+pub fn known_signatures(id: &str) -> BTreeSet<String> {
+    load_known(id)
+        .into_iter()
+        .filter(|k| k.status == "known")
+        .map(|k| k.signature)
+        .collect()
+}
+
+impl Obs {
+    /// An observation sink outside the engine (libFuzzer targets).
+    pub fn standalone(known: BTreeSet<String>) -> Obs {
+        Obs {
+            known,
+            ..Obs::default()
+        }
+    }
+}
+
+/// Used by libFuzzer targets: run `check` on one case; a violation that is not a known finding is
+/// written as a replay file and then panics (libFuzzer keeps the input as a crash artifact).
+pub fn fuzz_one<C: Serialize>(
+    id: &str,
+    case: &C,
+    render: &dyn Fn(&C) -> String,
+    check: &dyn Fn(&C, &mut Obs) -> Result<(), Failure>,
+) {
+    thread_local! {
+        static KNOWN: RefCell<Option<(String, BTreeSet<String>)>> = const { RefCell::new(None) };
+    }
+    let known = KNOWN.with(|k| {
+        let mut k = k.borrow_mut();
+        if k.as_ref().map(|x| x.0 != id).unwrap_or(true) {
+            install_quiet_hook();
+            *k = Some((id.to_string(), known_signatures(id)));
+        }
+        k.as_ref().unwrap().1.clone()
+    });
+    let mut obs = Obs::standalone(known.clone());
+    let r = match guard(|| check(case, &mut obs)) {
+        Ok(r) => r,
+        Err(p) => Err(Failure::new(p.sig(), format!("panic at {}:{}: {}", p.file, p.line, p.msg))),
+    };
+    if let Err(f) = r {
+        if known.contains(&f.sig) {
+            return;
+        }
+        let replay = ReplayFile {
+            property: id.to_string(),
+            sig: f.sig.clone(),
+            msg: format!("{}\n--- case ---\n{}", f.msg, render(case)),
+            seed: 0,
+            shard: 0,
+            case: serde_json::to_value(case).unwrap_or(serde_json::Value::Null),
+        };
+        let path = write_replay(id, &replay);
+        let _ = std::panic::take_hook();
+        println!("violation sig={} :: {}", f.sig, f.msg.lines().next().unwrap_or(""));
+        println!("VIOLATION property={} replay={}", id, path.display());
+        std::process::abort();
+    }
+}
+
 pub struct Spec<C: 'static> {
     pub id: &'static str,
     /// how cases are generated and what makes one non-trivial / distinct
